@@ -360,10 +360,17 @@ func storedFunctions(fn *ssa.Function, callee ssa.Value) (out []*ssa.Function, c
 	for _, b := range fn.Blocks {
 		for _, ins := range b.Instrs {
 			if st, ok := ins.(*ssa.Store); ok && st.Addr == root {
-				if _, ok := st.Val.(*ssa.Function); !ok {
+				var f *ssa.Function
+				switch v := st.Val.(type) {
+				case *ssa.Function:
+					f = v
+				case *ssa.MakeClosure:
+					f, _ = v.Fn.(*ssa.Function)
+				}
+				if f == nil {
 					closed = false
 				}
-				if f, ok := st.Val.(*ssa.Function); ok {
+				if f != nil {
 					dup := false
 					for _, o := range out {
 						if o == f {
